@@ -8,7 +8,7 @@ from typing import Dict, List, Optional, Set, Tuple
 
 from ..astutil import arg_of, call_name, calls, guards, kwarg, last_attr, stmt_key, txt, walk_local
 from ..cfg import CFG
-from ..flow import bound_from
+from ..flow import bound_from, inline_reaching
 from ..index import UNRESOLVED, AnalysisError, dotted
 from ..kernel import affine
 from ..report import Ctx
@@ -168,12 +168,13 @@ def r02_1(ctx: Ctx) -> None:
                 ctx.ob("R02.1", RP, call, qual, "group keeps cds flag", isinstance(allow, ast.Name) and allow.id == "allow_cds",
                        "a plain group forwards the caller's allow_cds", form=txt(call))
     # atom level: cds/minimum only when allowed
-    for node in walk_local(atom):
-        if isinstance(node, ast.If) and any(k in txt(node.test) for k in ("TokenTypes.MINIMUM", "TokenTypes.CDS")):
-            ok = isinstance(node.test, ast.BoolOp) and isinstance(node.test.op, ast.And) and \
-                any(txt(v) == "allow_cds" for v in node.test.values)
-            ctx.ob("R02.1", RP, node, f"Parser.{f_atom}", f"allow_cds guard {txt(node.test)[-20:]}", ok,
-                   "cds(...) and minimum(...) atoms are accepted only where allowed", form=txt(node.test))
+    from ..flow import fact_texts as _facts
+    acfg = CFG(atom)
+    for node in [c for c in calls(atom) if last_attr(c) in ("_parse_minimum", "_parse_cds")]:
+        if True:
+            ok = "allow_cds" in _facts(acfg, node)
+            ctx.ob("R02.1", RP, node, f"Parser.{f_atom}", f"allow_cds guard {last_attr(node)}", ok,
+                   "cds(...) and minimum(...) atoms are accepted only where allowed", form=txt(node))
     _ = cfg
 
 
@@ -259,8 +260,19 @@ def r02_2(ctx: Ctx) -> None:
            form=str(sorted(singles)))
     # classify falls back to INT / IDENTIFIER / TEXT only when the mapping has no entry
     classify = ctx.fn(RP, "TokenTypes.classify")
-    ok = "Tokeniser.mapping.get(text)" in txt(classify) and any(
-        isinstance(n, ast.If) and txt(n.test) == "classification is None" for n in walk_local(classify))
+    from ..flow import nnf_literals, resolved_facts
+    ccfg = CFG(classify)
+    word = classify.args.args[1].arg
+    lookup = f"Tokeniser.mapping.get({word})"
+    fallbacks = [r for r in walk_local(classify) if isinstance(r, (ast.Return, ast.Assign)) and r.value is not None
+                 and txt(r.value) in ("cls.INT", "cls.IDENTIFIER", "cls.TEXT")]
+    ok = len(fallbacks) == 3 and all(
+        {(f"{lookup} is None", True), (f"{lookup} is not None", False), (lookup, False)} & nnf_literals(resolved_facts(ccfg, r))
+        for r in fallbacks)
+    mapped = [r for r in walk_local(classify) if isinstance(r, ast.Return) and r.value is not None and r not in fallbacks
+              and (txt(inline_reaching(ccfg, r, r.value)) == lookup
+                   or any(txt(v) == lookup for n in ast.walk(r.value) if isinstance(n, ast.Name) for v in bound_from(classify, n.id)))]
+    ok = ok and bool(mapped)
     ctx.ob("R02.2", RP, classify, "TokenTypes.classify", "mapping first", ok,
            "a word is classified by the mapping first; only unmapped words become INT / IDENTIFIER / TEXT", form="")
 
@@ -566,12 +578,21 @@ def r02_6(ctx: Ctx) -> None:
     splice = [n for n in walk_local(func) if isinstance(n, ast.Assign) and txt(n.targets[0]) == "self.tokens"]
     ok = len(splice) == 1
     if ok:
-        value = txt(inline_reaching(cfg, splice[0], splice[0].value))
-        ok = value == "iter(self.aliases[self.current_token.identifier] + list(self.tokens))"
-        lits = set()
+        value = splice[0].value
+        # iter(self.aliases[<next token>.identifier] + list(self.tokens)) where <next token> is what current_token becomes
+        ok = isinstance(value, ast.Call) and call_name(value) == "iter" and len(value.args) == 1 \
+            and isinstance(value.args[0], ast.BinOp) and isinstance(value.args[0].op, ast.Add) \
+            and txt(value.args[0].right) == "list(self.tokens)" and isinstance(value.args[0].left, ast.Subscript) \
+            and txt(value.args[0].left.value) == "self.aliases" and txt(value.args[0].left.slice).endswith(".identifier")
+        token = txt(value.args[0].left.slice)[:-len(".identifier")] if ok else ""
+        lits = nnf_literals(facts_nnf(path_facts(cfg, splice[0])))
         for expr, truth in path_facts(cfg, splice[0]):
-            lits |= nnf_literals(facts_nnf([(inline_reaching(cfg, expr, expr), truth)]))
-        ok = ok and ("self.current_token.identifier in self.aliases", True) in lits
+            lits |= nnf_literals(facts_nnf([(inline_reaching(cfg, expr, expr, max_depth=0), truth)]))
+        ok = ok and (f"{token}.identifier in self.aliases", True) in lits
+        # the token tested and spliced is the one just fetched from the stream
+        if ok and token != "self.current_token":
+            fetched = [txt(v) for v in bound_from(func, token)]
+            ok = any(v.startswith("next(self.tokens") or v == "self.current_token" for v in fetched)
     ctx.ob("R02.6", RP, splice[0] if splice else func, qual, "alias splice", ok,
            "an alias name is replaced by its tokens, spliced before the rest of the stream (textual substitution)",
            form=stmt_key(splice[0]) if splice else "")
